@@ -198,6 +198,8 @@ class Impl:
         if k == 'setnstext':
             s.cssRules[op[1]].cssText = G.render_ns(op[2], op[3], op[4])
             return None
+        if k == 'insmedia':
+            return s.cssRules[op[1]].insertRule(G.render_sels(op[2]) + ' { x: 1 }', op[3])
         if k == 'rawdel':
             if op[2] == 'pop':
                 s.cssRules.pop(op[1])
@@ -209,6 +211,100 @@ class Impl:
             rule = c.css.CSSStyleRule(selectorText=(G.render_sels(sels), dict(nsdict)), style='x: 1')
             return s.insertRule(rule, idx, io)
         raise ValueError(k)
+
+
+class WorldImpl:
+    """two sheets and one followed style rule object (model: lean/CssVerif/Model/NsShare.lean)"""
+    def __init__(self, c):
+        self.c = c
+        self.s = [Impl(c), Impl(c)]
+        self.obj = None
+
+    def reset(self):
+        for x in self.s:
+            x.reset()
+        self.obj = None
+
+    def apply(self, wop):
+        c = self.c
+        old = c.log.raiseExceptions
+        c.log.raiseExceptions = True
+        try:
+            with time_limit(20):
+                ret = self._apply(wop)
+            return 'ok:%s' % ('n' if ret is None else ret)
+        except xml.dom.DOMException as e:
+            return 'err:' + type(e).__name__
+        except Exception as e:
+            if type(e).__name__ == 'TimeLimit':
+                raise
+            return 'exc:' + type(e).__name__
+        finally:
+            c.log.raiseExceptions = old
+
+    def _apply(self, wop):
+        k = wop[0]
+        if k == 'w':
+            return self.s[wop[1]]._apply(wop[2])
+        if k == 'wgrab':
+            r = self.s[wop[1]].sheet.cssRules[wop[2]]
+            r.selectorText = G.render_sels(wop[3])
+            self.obj = r
+            return None
+        if k == 'wshare':
+            return self.s[wop[1]].sheet.insertRule(self.obj, wop[2], wop[3])
+        if k == 'wobjsel':
+            self.obj.selectorText = G.render_sels(wop[1])
+            return None
+        raise ValueError(k)
+
+    def state(self):
+        c = self.c
+        a, b = self.s[0].sheet, self.s[1].sheet
+        if self.obj is None:
+            o = '_'
+        else:
+            ps = self.obj.parentStyleSheet
+            own = 'a' if ps is a else ('b' if ps is b else ('n' if ps is None else '?'))
+
+            def idx(sheet):
+                hit = [i for i, x in enumerate(sheet.cssRules) if x is self.obj]
+                return '-' if not hit else '+'.join(map(str, hit))
+            o = '%s:%s:%s' % (own, idx(a), idx(b))
+        return 'A:%s B:%s O=%s' % (canon_state(c, a), canon_state(c, b), o)
+
+
+def sheet_problems(parser, sheet):
+    """the state clauses of the property on one sheet, read off the implementation only:
+    [(clause, detail)]"""
+    bad = []
+    pairs = sheet_pairs(sheet)
+    mapping = dict(sheet.namespaces.items())
+    want = spec_view(pairs)
+    if mapping != want:
+        bad.append(('the namespace mapping equals the effective @namespace rules (last declaration of a URI '
+                    'wins, one prefix per URI)', {'mapping': mapping, 'rules': pairs, 'expected': want}))
+    items = sheet_items(sheet)
+    missing = sorted(u for u in used_uris(items) if u != '' and u not in mapping.values())
+    if missing:
+        bad.append(('every namespace URI used by a selector is declared', {'undeclared': missing, 'mapping': mapping}))
+    try:
+        with time_limit(20):
+            text = sheet.cssText
+            again = parser.parseString(text)
+        if dict(again.namespaces.items()) != mapping or sheet_pairs(again) != pairs:
+            bad.append(('reparse of cssText gives the same namespace declarations',
+                        {'cssText': text.decode('utf-8', 'replace'), 'mapping': mapping,
+                         'reparsed': dict(again.namespaces.items())}))
+        else:
+            diffs = item_diffs(items, sheet_items(again))
+            if diffs is None or diffs:
+                bad.append(('the serialisation of every selector re-resolves to the same (URI, name) pairs',
+                            {'cssText': text.decode('utf-8', 'replace'), 'items': items,
+                             'reparsed_items': sheet_items(again), 'mapping': mapping}))
+    except xml.dom.DOMException as e:
+        bad.append(('reparse of cssText gives the same namespace declarations', {'exception': repr(e)}))
+    return bad
 
 
 # ----------------------------------------------------------------------------------------------
@@ -260,9 +356,14 @@ class C15(Check):
                'cssutils/serialize.py')
     trusted_base = (
         'hand-written model lean/CssVerif/Model/Ns.lean of _Namespaces / _cleanNamespaces / deleteRule / the '
-        '@namespace branch of insertRule / CSSNamespaceRule setters / New.append / do_css_Selector, tied to the '
+        '@namespace branch of insertRule / CSSNamespaceRule setters / New.append / do_css_Selector / '
+        'CSSMediaRule.insertRule(text), tied to the '
         'source by the differential correspondence of this run (outcome and full canonical state after every '
         'operation of generated histories)',
+        'hand-written model lean/CssVerif/Model/NsShare.lean of one style rule object in the rule lists of two sheets '
+        '(parent sheet, private mappings, positions), tied by the two-sheet correspondence of this run (outcome, both '
+        'canonical states, parent and index of the object after every operation); lean/CssVerif/Model/NsCalls.lean '
+        '(New.append call by call) tied by the calls stream',
         'selectors enter the model as item lists (qualified names with the four prefix forms + verbatim other '
         'items); tokenising and the selector grammar are outside this kernel',
         'rendering of generated abstract sheets/selectors to CSS text and the canonical projection in '
@@ -270,15 +371,19 @@ class C15(Check):
     )
     assumptions = (
         'DOM calls run with cssutils.log.raiseExceptions = True (the default); parseString runs in logging mode',
-        '@namespace rules with an empty URI, negative indices, comments inside selectors and nested @media are '
-        'not generated (not modelled)',
+        '@namespace rules with an empty URI, negative indices, comments inside selectors other than directly after a '
+        'namespace prefix / in front of the selector, nested @media and more than one shared rule object are not '
+        'generated (not modelled)',
     )
     rule = ('histories: a parsed start sheet (0-4 @namespace rules with/without prefix and comments, style rules, '
             '@media, other rule kinds in and out of order, declared and undeclared prefixes) followed by 1-10 '
             'operations drawn from 10 kinds over small vocabularies of prefixes/URIs/names so that collisions are '
             'frequent; selectors: type, universal, attribute, :not() names with the prefix forms name, *|name, '
             '|name, p|name. non-trivial = distinct (state before, operation) pairs in which the sheet has an '
-            '@namespace rule or the operation mentions a prefix')
+            '@namespace rule or the operation mentions a prefix. two-sheet histories: two parsed sheets, a style rule '
+            'object followed through grab / insertRule into the other sheet / selectorText= / deleteRule on either side '
+            'and the namespace operations on both sheets. calls: selectors with comments directly after namespace '
+            'prefixes and in front')
 
     # ------------------------------------------------------------------------------------------
     def run(self, ctx):
@@ -294,14 +399,32 @@ class C15(Check):
                         hist.append(('corpus', G.from_json(h)))
         for h in G.boundary_histories():
             hist.append(('boundary', h))
+        only = os.environ.get('C15_ONLY')           # development aid: one phase only
+        if only == 'calls':
+            ctx.phase(self.corr_calls, ctx, c, ctx.sub_rng('c15-calls'))
+            return
+        if only == 'world':
+            ctx.phase(self.run_world, ctx, c, [('world-boundary', h) for h in G.world_boundary_histories()],
+                      ctx.sub_rng('c15-world'), generate=ctx.n(300, 5000))
+            return
         ctx.phase(self.run_histories, ctx, c, hist, rng, generate=ctx.n(2000, 25000))
+        ctx.phase(self.run_world, ctx, c, [('world-boundary', h) for h in G.world_boundary_histories()],
+                  ctx.sub_rng('c15-world'), generate=ctx.n(300, 5000))
         ctx.phase(self.corr_detached, ctx, c, rng)
+        ctx.phase(self.corr_calls, ctx, c, ctx.sub_rng('c15-calls'))
         ctx.phase(self.oracle_logmode, ctx, c, ctx.sub_rng('c15-logmode'))
         ctx.phase(self.oracle_media_insert, ctx, c, ctx.sub_rng('c15-media'))
         ctx.phase(self.oracle_comment_after_prefix, ctx, c, ctx.sub_rng('c15-comment'))
         # report the smallest failing history first
         ctx.violations.sort(key=lambda v: len(json.dumps(v['witness'], default=repr)))
         ctx.disagreements.sort(key=lambda d: len(json.dumps(d['input'], default=repr)))
+        if os.environ.get('C15_DUMP'):                # development aid
+            json.dump(ctx.disagreements, open(os.environ['C15_DUMP'], 'w'), default=repr)
+
+    def search(self, ctx):
+        if os.environ.get('C15_ONLY') or os.environ.get('C15_NOSEARCH'):     # development aids
+            return
+        super().search(ctx)
 
     # -- histories: the ops of a history are chosen while the implementation runs (indices refer to its state)
     def run_histories(self, ctx, c, fixed, rng, generate):
@@ -327,6 +450,9 @@ class C15(Check):
                 m = out[j]
                 j += 1
                 got = outcome + ' ' + post
+                if m != got and os.environ.get('C15_DUMP'):          # development aid: every mismatch
+                    with open(os.environ['C15_DUMP'] + '.all', 'a') as f:
+                        f.write(json.dumps([h, G.to_json_op(op), got, m]) + '\n')
                 if m != got:
                     ctx.disagree('history step', {'history': h, 'op': G.to_json_op(op), 'pre': pre,
                                                   'ops_so_far': self.hist_ops.get(h)},
@@ -428,7 +554,7 @@ class C15(Check):
             rpre = split_state(pre)['R']
             if op[0] == 'delrule' and len(sheet.cssRules) != (0 if rpre == '_' else rpre.count(';') + 1) - 1:
                 bad.append(("deleteRule removes exactly one rule", {'pre': pre, 'post': post}))
-        if op[0] in ('setsel', 'insstyle'):
+        if op[0] in ('setsel', 'insstyle', 'insmedia'):
             und = [p for p in G.named_prefixes(op) if p not in pre_map]
             if und and not outcome.startswith('err'):
                 bad.append(('a selector using an undeclared prefix is rejected', {'undeclared_prefixes': und}))
@@ -467,6 +593,102 @@ class C15(Check):
         if not bad:
             return None
         kid = self.kf.classify(op, pre_map, pre_ns, outcome, pre != post)
+        for clause, detail in bad:
+            ctx.violate(clause, wit, detail, known=kid)
+        return kid or 'unattributed'
+
+    # -- two sheets, one style rule object in both rule lists (Model/NsShare.lean) -----------------------
+    def run_world(self, ctx, c, fixed, rng, generate):
+        w = WorldImpl(c)
+        lines, records = [], []
+        n = 0
+        for kind, ops in fixed:
+            self.one_world(ctx, c, w, kind, iter(ops), records, lines)
+            n += 1
+        for _ in range(generate):
+            self.one_world(ctx, c, w, 'world', G.WorldGen(rng), records, lines)
+            n += 1
+        out = ctx.driver(lines) if ctx.model_ok else None
+        if out is not None:
+            for rec, m in zip(records, out):
+                if rec is None:
+                    continue
+                done, wop, pre, got = rec
+                if m != got:
+                    ctx.disagree('two-sheet history step', {'wops_so_far': done, 'op': G.to_json_op(wop), 'pre': pre},
+                                 got, m)
+        ctx.notes['world_histories'] = n
+
+    def one_world(self, ctx, c, w, kind, ops, records, lines):
+        w.reset()
+        lines.append('wreset')
+        records.append(None)
+        done = []
+        tainted = None
+        if isinstance(ops, G.WorldGen):
+            ops.bind(w)
+        for wop in ops:
+            pre = w.state()
+            outcome = w.apply(wop)
+            post = w.state()
+            done.append(G.to_json_op(wop))
+            lines.append(G.wop_line(wop))
+            records.append((list(done), wop, pre, outcome + ' ' + post))
+            shared = post.rsplit(' O=', 1)[1]
+            ctx.case(key=('world', pre, G.wop_line(wop)), nontrivial=shared != '_' or 'N=' in pre,
+                     kind='%s:%s:%s' % (kind, wop[2][0] if wop[0] == 'w' else wop[0], outcome.split(':')[0]),
+                     sample={'pre': pre, 'op': G.to_json_op(wop), 'outcome': outcome, 'post': post})
+            if tainted is None:
+                tainted = self.world_oracle(ctx, c, w, done, wop, pre, outcome, post)
+            else:
+                ctx.count('steps-after-known-finding')
+
+    def world_oracle(self, ctx, c, w, done, wop, pre, outcome, post):
+        """the property on both sheets; returns a finding id when the step entered a known region"""
+        wit = {'wops': list(done)}
+        bad = []
+        if outcome.startswith('exc:'):
+            bad.append(('a namespace operation raises only documented DOM exceptions', {'outcome': outcome}))
+        if outcome.startswith('err') and not (wop[0] == 'w' and wop[2][0] == 'parse') and post != pre:
+            bad.append(('a rejected operation leaves mapping, rules and selectors unchanged', {'pre': pre, 'post': post}))
+        # state-defined region of C15-rule-in-two-sheets: a rule sits in the list of a sheet that is not its parent
+        stray = []
+        for sd in (0, 1):
+            sheet = w.s[sd].sheet
+            stray += [(sd, i) for i, r in enumerate(sheet.cssRules) if r.parentStyleSheet is not sheet]
+            for clause, detail in sheet_problems(w.s[sd].parser, sheet):
+                detail = dict(detail, sheet='AB'[sd])
+                bad.append((clause, detail))
+        if not bad:
+            return None
+        kid = None
+        # … or sat there before this operation (a rejected @namespace insert re-parents it: the state after is clean)
+        o = pre.rsplit(' O=', 1)[1]
+        if o != '_':
+            own, ia, ib = o.split(':')
+            if (ia != '-' and own != 'a') or (ib != '-' and own != 'b'):
+                stray.append(('pre', o))
+        if stray:
+            # what the finding is about: prefixes / URIs of the rule do not fit the sheet that lists it, and a
+            # rejected call re-parents it; anything else (the mapping itself, undocumented exceptions) is not excused
+            excused = ('every namespace URI used by a selector is declared',
+                       'the serialisation of every selector re-resolves to the same (URI, name) pairs',
+                       'reparse of cssText gives the same namespace declarations',
+                       'a rejected operation leaves mapping, rules and selectors unchanged')
+            for clause, detail in bad:
+                ctx.violate(clause, wit, detail, known='C15-rule-in-two-sheets' if clause in excused else None)
+            return 'C15-rule-in-two-sheets'
+        elif wop[0] == 'wshare' and outcome.startswith('ok'):
+            kid = 'C15-foreign-style-rule'
+        else:
+            # the one-sheet findings about the default namespace (state-defined)
+            for sd in (0, 1):
+                sheet = w.s[sd].sheet
+                mapping = dict(sheet.namespaces.items())
+                for rule in sheet_items(sheet):
+                    for sel in rule:
+                        for it in sel:
+                            kid = kid or KnownRegions.item_region(mapping, it)
         for clause, detail in bad:
             ctx.violate(clause, wit, detail, known=kid)
         return kid or 'unattributed'
@@ -577,6 +799,55 @@ class C15(Check):
         finally:
             c.log.raiseExceptions = old
 
+    # -- New.append call by call: comments after a prefix / in front (Model/NsCalls.lean) ----------------
+    def corr_calls(self, ctx, c, rng):
+        COMMENT = '/*c*/'
+        lines, cases = [], []
+        for _ in range(ctx.n(600, 15000)):
+            d = G.gen_dict(rng)
+            sel = G.gen_selector(rng, [p for p in d if p] + (['zz'] if rng.random() < 0.15 else []), bad=0.01)
+            words, text = [], ''
+            if rng.random() < 0.2:
+                words.append('c:' + enc(COMMENT))
+                text += COMMENT
+            for it in sel:
+                if it[0] == 'q':
+                    ps = it[2]
+                    if ps != 'N':
+                        words.append('p' + G.ps_word(ps))
+                        text += G.render_ps(ps)
+                        # (`p|/**/*` is refused by the selector grammar: universal is one token with its prefix)
+                        if it[1] != 'u' and rng.random() < 0.6:
+                            words.append('c:' + enc(COMMENT))
+                            text += COMMENT
+                    words.append('n:%s:%s' % (it[1], enc(it[3])))
+                    text += it[3]
+                elif it[0] == 'o':
+                    words.append('o:%s:%s' % (enc(it[1]), enc(it[2])))
+                    text += it[3]
+                else:
+                    words.append('x')
+                    text += '!'
+            lines.append('calls %s %s' % (G.dict_word(d), '+'.join(words)))
+            cases.append((d, text))
+        out = ctx.driver(lines) if ctx.model_ok else [None] * len(lines)
+        old = c.log.raiseExceptions
+        c.log.raiseExceptions = True
+        try:
+            for (d, text), m in zip(cases, out):
+                try:
+                    s = c.css.Selector((text, dict(d)))
+                    got = 'ok ' + '+'.join('c:' + enc(getattr(i.value, 'cssText', i.value)) if i.type == 'COMMENT' else canon_item(i)
+                                           for i in s.seq)
+                except xml.dom.DOMException as e:
+                    got = 'err:' + type(e).__name__
+                ctx.case(key=('calls', text, tuple(sorted(d.items()))), nontrivial='|/*' in text,
+                         kind='calls:' + got.split(' ')[0].split(':')[0], sample={'selector': text, 'namespaces': d, 'impl': got})
+                if m is not None and m != got:
+                    ctx.disagree('calls of New.append', {'selector': text, 'namespaces': d}, got, m)
+        finally:
+            c.log.raiseExceptions = old
+
     # -- detached selectors: Selector((text, dict)) -------------------------------------------------
     def corr_detached(self, ctx, c, rng):
         lines, cases = [], []
@@ -635,6 +906,9 @@ class C15(Check):
             s2 = c.css.Selector((s.selectorText, dict(w['namespaces'])))
             return [(i.type, i.value) for i in s.seq] != [(i.type, i.value) for i in s2.seq]
         probe = Probe()
+        if 'wops' in w:
+            self.replay_wops(probe, c, [G.wop_from_json(o) for o in w['wops']])
+            return any(k == finding['id'] for _, _, _, k in probe.v)
         self.replay_ops(probe, c, [G.from_json_op(o) for o in w['ops']])
         return any(k == finding['id'] for _, _, _, k in probe.v)
 
@@ -654,11 +928,25 @@ class C15(Check):
             if tainted is None:
                 tainted = self.oracle(ctx, c, im, 0, done, op, pre, pre_items, pre_map, outcome, post)
 
+    def replay_wops(self, ctx, c, wops):
+        w = WorldImpl(c)
+        done = []
+        tainted = None
+        for wop in wops:
+            pre = w.state()
+            outcome = w.apply(wop)
+            post = w.state()
+            done.append(G.to_json_op(wop))
+            if tainted is None:
+                tainted = self.world_oracle(ctx, c, w, done, wop, pre, outcome, post)
+
     def replay(self, ctx, data):
         c = impl()
         self.kf = KnownRegions()
         w = data.get('witness') or {}
-        if data.get('kind') == 'impl-violates' and 'ops' in w:
+        if data.get('kind') == 'impl-violates' and 'wops' in w:
+            self.replay_wops(ctx, c, [G.wop_from_json(o) for o in w['wops']])
+        elif data.get('kind') == 'impl-violates' and 'ops' in w:
             self.replay_ops(ctx, c, [G.from_json_op(o) for o in w['ops']])
         elif data.get('kind') == 'impl-violates' and 'selector' in w:
             self.corr_one_detached(ctx, c, w)
@@ -666,7 +954,11 @@ class C15(Check):
             done = False
             for b in data.get('broken', []):
                 inp = b.get('input') or {}
-                if 'ops_so_far' in inp and inp['ops_so_far']:
+                if inp.get('wops_so_far'):
+                    wops = [G.wop_from_json(o) for o in inp['wops_so_far']]
+                    self.run_world(ctx, c, [('replay', wops)], ctx.sub_rng('replay'), generate=0)
+                    done = True
+                elif 'ops_so_far' in inp and inp['ops_so_far']:
                     ops = [G.from_json_op(o) for o in inp['ops_so_far']]
                     self.run_histories(ctx, c, [('replay', ops)], ctx.sub_rng('replay'), generate=0)
                     done = True
